@@ -1,9 +1,19 @@
 ---- MODULE MirrorMC ----
 EXTENDS Mirror
+ASSUME TLCSet(7, {})
 McHs == {"a", "b", "d"}
 McDyn == {"d"}
 EmitSim == EmitAtLevel(22)
 \* test purpose (breadth-first, tiny bounds): the shortest histories that end with the delivery described by the X: label
 EmitPurpose == (hist # <<>> /\ hist[Len(hist)].act = "Deliver" /\ "X:part-rejected-after-update-part" \in hist[Len(hist)].sit)
                  => PrintT(<<"BEH", ToJson(hist)>>)
+\* test purposes for loads (breadth-first, one worker, small universe): the first (= a shortest) history for every
+\* situation of a load - what was buffered / arrived late relative to the snapshot it is replayed on
+PurposeHs == {"a", "d"}
+RECURSIVE LoadSits(_)
+LoadSits(i) == IF i = 0 \/ hist[i].act = "BeginLoad" THEN {}
+               ELSE (IF "sit" \in DOMAIN hist[i] THEN hist[i].sit ELSE {}) \cup LoadSits(i - 1)
+EmitLoadPurpose == (hist # <<>> /\ hist[Len(hist)].act = "EndLoad")
+                   => LET fresh == LoadSits(Len(hist)) \ TLCGet(7)
+                      IN fresh # {} => (PrintT(<<"BEH", ToJson(hist)>>) /\ TLCSet(7, TLCGet(7) \cup fresh))
 ====
